@@ -427,7 +427,7 @@ def run(ctx):
         for p in S.run(pt, args={2: 0x23}):
             if p.end == "return" and isinstance(p.ret, Adt):
                 if p.ret.variant == 0 and isinstance(p.ret.fields[0], Adt):
-                    kinds.add(tok[p.ret.fields[0].variant])
+                    kinds.add(c08.TM(lexpr).kind(p.ret.fields[0], S, p))
                 else:
                     kinds.add("Err")
         # expect_ident iterates a slice, which the analysis does not unroll: Err is an additional abstract outcome
